@@ -21,6 +21,15 @@ CLAIMED = {
             "in contact, no division by zero) is a discharged obligation for all in-bounds parameters and all "
             "arrays of any length; the 1e-4 distance to the implicit exact Sneddon solution involves ln() and is "
             "a bounded grid check, reported separately.", "3 C02"),
+    "C13": ("proof", "contract-based deductive verification: contracts on model_direction_agnostic, the two default "
+            "wrappers, residual and compute_contact_point_weights with the user's model function uninterpreted; "
+            "call-site obligation 'user function sees approach-ordered data'; per-model algebraic lemmas over the "
+            "C02 postconditions (z3 nlsat); bounded stand-ins for Clifford monotonicity and harness models",
+            "All structural clauses that nanite's code decides hold for EVERY model function (uninterpreted G, "
+            "order-sensitive allowed) and every abscissa of either orientation and any length; translation, "
+            "baseline additivity, modulus scaling, continuity and monotonicity follow as lemmas from the proved C02 "
+            "postconditions. Clifford monotonicity and models run through the real registry are bounded and "
+            "labelled so.", "3 C13"),
 }
 
 NOT_APPLICABLE = {
